@@ -382,6 +382,45 @@ def run_case(case):
             if "do not appear in the constraints and objective" not in str(e):
                 res["violations"].append(C.exc_violation(ID, C.RockitRaised("solve/sol(stage)", e), mode))
                 return res
+    # a value set on one stage's parameter after the transcription reaches that stage's parameter only
+    if not res["violations"]:
+        cand = [(k, p_) for k, b in enumerate(builts) for p_ in b.spec["params"] if not p_.get("grid") and p_.get("role") != "horizon"]
+        if cand:
+            k, p_ = cand[int(rng.integers(0, len(cand)))]
+            b = builts[k]
+            try:
+                w = view.random_point(rng)
+                before = [rb(w, view.p0) for rb in rbs]
+                pp_before = float(ca.Function("pp", [view.x, view.p], [ocp.value(pp)])(w, view.p0))
+                newval = np.array(p_["value"], dtype=float) + 0.37
+                C.call("set_value(stage, transcribed)", b.stage.set_value, b.syms[p_["name"]], ca.DM(newval))
+                opti = view.opti
+                p1 = np.array(opti.debug.value(view.p, opti.initial())).reshape(-1) if view.np else np.zeros(0)
+                after = [rb(w, p1) for rb in rbs]
+                pp_after = float(ca.Function("pp", [view.x, view.p], [ocp.value(pp)])(w, p1))
+                res["evals"] += 1
+                res["counters"]["stage_set_value_after_transcription"] = 1
+                got = np.asarray(after[k]["p:" + p_["name"]], dtype=float).reshape(newval.shape)
+                bad = None
+                if np.max(np.abs(got - newval)) > 1e-12:
+                    bad = "stage %d parameter %s reads %s after set_value(%s)" % (k, p_["name"], C.short(got), C.short(newval))
+                elif abs(pp_after - pp_before) > 1e-12:
+                    bad = "the parent's own parameter changed from %g to %g" % (pp_before, pp_after)
+                else:
+                    for j in range(len(builts)):
+                        for key in before[j]:
+                            if key[:2] in ("p:", "pc") and not (j == k and key == "p:" + p_["name"]):
+                                # clones of one template share parameter *symbols*, not values
+                                if np.max(np.abs(np.asarray(before[j][key], dtype=float) -
+                                                 np.asarray(after[j][key], dtype=float))) > 1e-12:
+                                    bad = "parameter %s of stage %d changed as well" % (key, j)
+                if bad:
+                    res["violations"].append({"kind": "stage-set-value", "mech": "C12|set_value-on-stage-parameter-after-transcription",
+                                              "detail": bad})
+                    return res
+            except C.RockitRaised as e:
+                res["violations"].append(C.exc_violation(ID, e, mode))
+                return res
     # the template can be cloned again
     if tmpl is not None:
         try:
